@@ -642,8 +642,21 @@ func (t *fnTrans) externalCall(in ssa.Instruction, name string, cc *ssa.CallComm
 		}
 		s.all = true
 	}
+	allocBefore := t.h.get(t.cur, "alloc")
 	t.havocVars(s.all, s.vars)
-	t.freshResults(res, nameOf(res, "r"))
+	rs := t.freshResults(res, nameOf(res, "r"))
+	// trusted: slices returned by library calls are freshly allocated
+	if res != nil {
+		if tu, ok := res.Type().(*types.Tuple); ok {
+			for i := 0; i < tu.Len(); i++ {
+				if _, isSl := tu.At(i).Type().Underlying().(*types.Slice); isSl {
+					t.assume("(or (= (sl_arr " + rs[i] + ") 0) (> (sl_arr " + rs[i] + ") " + allocBefore + "))")
+				}
+			}
+		} else if _, isSl := res.Type().Underlying().(*types.Slice); isSl {
+			t.assume("(or (= (sl_arr " + rs[0] + ") 0) (> (sl_arr " + rs[0] + ") " + allocBefore + "))")
+		}
+	}
 }
 
 func (t *fnTrans) unknownCall(in ssa.Instruction, cc *ssa.CallCommon, res ssa.Value) {
@@ -711,6 +724,9 @@ func (t *fnTrans) builtin(in ssa.Instruction, b *ssa.Builtin, cc *ssa.CallCommon
 	case "close":
 		x := t.val(cc.Args[0])
 		cl := t.h.get(t.cur, "chclosed")
+		if t.chanNeverClosed(cc.Args[0]) {
+			t.oblige("safe.close", "neverclosed:"+t.describe(cc.Args[0]), in.Pos(), "false", "close of a channel declared never_closed")
+		}
 		t.oblige("safe.close", "close:"+t.describe(cc.Args[0]), in.Pos(), and("(not (= "+x+" 0))", not(sel(cl, x))), "close of nil or closed channel panics")
 		t.h.set(t.cur, "chclosed", store(cl, x, "true"))
 		t.event("closed", x, "")
@@ -1144,6 +1160,7 @@ func (t *fnTrans) send(in *ssa.Send) {
 	}
 	t.blockCheckSend(in, ch, nm)
 	t.oblige("safe.sendclosed", "send:"+nm, in.Pos(), not(sel(t.h.get(t.cur, "chclosed"), ch)), "send on closed channel panics")
+	t.elemInvAssert(in, in.Chan, x, in.X.Type(), "true")
 	t.ownSendHook(in, in.X, x, "true")
 	t.event("sent", ch, x)
 	if site != "" {
@@ -1167,10 +1184,12 @@ func (t *fnTrans) recv(in *ssa.UnOp) {
 		v := t.freshOf(in.Name()+".v", elem)
 		t.vals[in] = []string{v, ok}
 		t.ownRecvHook(in, v, elem)
+		t.elemInvAssume(in.X, v, elem, ok)
 		return
 	}
 	v := t.freshVal(in)
 	t.ownRecvHook(in, v, elem)
+	t.elemInvAssume(in.X, v, elem, "true")
 	_ = ch
 }
 
@@ -1204,6 +1223,7 @@ func (t *fnTrans) selectInstr(in *ssa.Select) {
 			t.cur.reach = and(save, fired)
 			t.oblige("safe.sendclosed", "select.send:"+t.chanName(st.Chan), in.Pos(), not(sel(t.h.get(t.cur, "chclosed"), ch)), "send on closed channel panics")
 			t.cur.reach = save
+			t.elemInvAssert(in, st.Chan, x, st.Send.Type(), fired)
 			t.ownSendHook(in, st.Send, x, fired)
 			t.eventIf(fired, "sent", ch, x)
 		} else {
@@ -1211,6 +1231,11 @@ func (t *fnTrans) selectInstr(in *ssa.Select) {
 			v := t.freshOf(fmt.Sprintf("%s.r%d", in.Name(), k), elem)
 			out = append(out, v)
 			t.ownRecvHookIf(in, fired, v, elem)
+			if t.chanNeverClosed(st.Chan) {
+				t.elemInvAssume(st.Chan, v, elem, fired)
+			} else {
+				t.elemInvAssume(st.Chan, v, elem, and(fired, recvOk))
+			}
 			t.eventIf(fired, "fired", ch, "")
 		}
 	}
